@@ -249,26 +249,46 @@ def check(ctx):
     inc = m.func(LOC, 'Localization._incoming')
     g = cfg_of(inc)
     up = g.find(lambda n: isinstance(n, ast.Call) and dotted(n.func) == 'struct.unpack' and fold_in(inc, n.args[0]) == '<Bf')
-    ctx.need(len(up) == 1, '_incoming: range record decode not found')
-    keys = g.fact_keys_at(up[0][0])
-    ctx.inst('R6', inc, 'range-length-check', fact_key('len(data) % 5 != 0', False) in keys and fact_key('pk_type == self.RANGE_STREAM_REPORT', True) in keys,
-             'records are decoded only when the payload is a whole number of 5-byte records')
-    ctx.inst('R6', inc, 'range-record', norm(up[0][1].args[1]) == 'raw_data[:5]', 'each record is the next 5 bytes')
-    lp = [l for l in walk_own(inc.node) if isinstance(l, ast.For)]
-    ctx.inst('R6', inc, 'range-count', len(lp) == 1 and norm(lp[0].iter) in ('range(int(len(data) / 5))', 'range(len(data) // 5)'), 'one iteration per record')
-    body = [norm(s) for s in lp[0].body] if lp else []
-    ctx.inst('R6', inc, 'range-advance', body == ["anchor_id, distance = struct.unpack('<Bf', raw_data[:5])", 'decoded_data[anchor_id] = distance', 'raw_data = raw_data[5:]'],
-             'record -> (anchor id, distance), stored by id, then advance 5 bytes; body %s' % body)
-    # the report is decoded into a dictionary of its own: what it lists is exactly what this packet carried (a dictionary kept on the
-    # object still shows the anchors of earlier reports, and every delivered packet shares it)
-    tgtd = [n for n in g.nodes if n.kind == 'stmt' and isinstance(n.ast, ast.Assign) and isinstance(n.ast.targets[0], ast.Subscript) and
-            norm(n.ast.targets[0].slice) == 'anchor_id']
-    okfr = len(tgtd) == 1 and isinstance(tgtd[0].ast.targets[0].value, ast.Name)
-    if okfr:
-        dsd = g.reaching_defs(tgtd[0], tgtd[0].ast.targets[0].value.id)
-        dvd = [g.def_value(d, tgtd[0].ast.targets[0].value.id) for d in dsd]
-        okfr = len(dsd) == 1 and dvd[0] is not None and norm(dvd[0]) in ('{}', 'dict()') and fact_key('pk_type == self.RANGE_STREAM_REPORT', True) in g.fact_keys_at(dsd[0])
-    ctx.inst('R6', inc, 'range-report-in-fresh-dict', okfr, 'distances are stored in a dictionary created for this report ({} in the range branch)')
+    itu = g.find(lambda n: isinstance(n, ast.Call) and dotted(n.func) == 'struct.iter_unpack' and len(n.args) == 2 and fold_in(inc, n.args[0]) == '<Bf')
+    if not up and len(itu) == 1:
+        # the library's own record iterator: dict(struct.iter_unpack('<Bf', data)) walks the payload in 5-byte records, in order, and
+        # builds a dictionary of its own from the (anchor id, distance) pairs
+        n_, c_ = itu[0]
+        keys = g.fact_keys_at(n_)
+        ctx.inst('R6', inc, 'range-length-check', fact_key('len(data) % 5 != 0', False) in keys and fact_key('pk_type == self.RANGE_STREAM_REPORT', True) in keys,
+                 'records are decoded only when the payload is a whole number of 5-byte records')
+        whole = isinstance(n_.ast, ast.Assign) and isinstance(n_.ast.value, ast.Call) and norm(n_.ast.value.func) == 'dict' and n_.ast.value.args[:1] == [c_] and \
+            len(n_.ast.value.args) == 1 and not n_.ast.value.keywords
+        ctx.inst('R6', inc, 'range-record', norm(c_.args[1]) == 'data', 'the records are those of the whole payload')
+        ctx.inst('R6', inc, 'range-count', whole, 'every record of the payload becomes an entry')
+        ctx.inst('R6', inc, 'range-advance', whole, 'record -> (anchor id, distance), stored by id')
+        ctx.inst('R6', inc, 'range-report-in-fresh-dict', whole and norm(n_.ast.targets[0]) == 'decoded_data', 'distances are stored in a dictionary created for this report')
+        up = None
+    elif not up and len(g.find(lambda n: isinstance(n, ast.Call) and dotted(n.func) == 'struct.unpack_from' and len(n.args) == 3 and fold_in(inc, n.args[0]) == '<Bf')) == 1:
+        # records read in place: for offset in range(0, len(data), 5): id, d = struct.unpack_from('<Bf', data, offset); decoded[id] = d
+        n_, c_ = g.find(lambda n: isinstance(n, ast.Call) and dotted(n.func) == 'struct.unpack_from' and len(n.args) == 3 and fold_in(inc, n.args[0]) == '<Bf')[0]
+        keys = g.fact_keys_at(n_)
+        ctx.inst('R6', inc, 'range-length-check', fact_key('len(data) % 5 != 0', False) in keys and fact_key('pk_type == self.RANGE_STREAM_REPORT', True) in keys,
+                 'records are decoded only when the payload is a whole number of 5-byte records')
+        lp = [l for l in walk_own(inc.node) if isinstance(l, ast.For)]
+        lv = norm(lp[0].target) if len(lp) == 1 and isinstance(lp[0].target, ast.Name) else None
+        ctx.inst('R6', inc, 'range-record', lv is not None and [norm(a) for a in c_.args[1:]] == ['data', lv], 'each record is read from the payload at the running offset')
+        it = lp[0].iter if len(lp) == 1 else None
+        step_ok = isinstance(it, ast.Call) and norm(it.func) == 'range' and len(it.args) == 3 and fold_in(inc, it.args[0]) == 0 and norm(it.args[1]) == 'len(data)' and fold_in(inc, it.args[2]) == 5
+        ctx.inst('R6', inc, 'range-count', bool(step_ok), 'one iteration per 5-byte record, from offset 0 to the end of the payload')
+        body = [norm(s_) for s_ in lp[0].body] if lp else []
+        ctx.inst('R6', inc, 'range-advance', lv is not None and body == ["anchor_id, distance = struct.unpack_from('<Bf', data, %s)" % lv, 'decoded_data[anchor_id] = distance'] and
+                 lv not in ('anchor_id', 'distance', 'data', 'decoded_data'), 'record -> (anchor id, distance), stored by id; body %s' % body)
+        fresh_dict_rule(ctx, inc, g)
+        up = None
+    else:
+        ctx.need(len(up) == 1, '_incoming: range record decode not found')
+    stream_rest(ctx, m, inc, g, up)
+
+
+def stream_rest(ctx, m, inc, g, up):
+    if up is not None:
+        range_loop_rules(ctx, inc, g, up)
     st = {norm(s.targets[0]): norm(s.value) for s in walk_own(inc.node) if isinstance(s, ast.Assign)}
     short = [n for n in g.nodes if n.kind == 'return' for k in g.fact_keys_at(n) if k[0].endswith('< len(packet.data)') and not k[1]]
     ks = sorted({k[0] for n in short for k in g.fact_keys_at(n) if k[0].endswith('< len(packet.data)') and not k[1]})
@@ -286,6 +306,32 @@ def check(ctx):
         for k in (1, 2, 3):
             want = 'F%d - fp16_to_float(F%d)' % (base, base + k)
             ctx.inst('R6', la, 'lh-%s%d' % (axis, k), got[k:k + 1] == [want], 'sensor %d %s angle = %s; found %s' % (k, axis, want, got[k:k + 1]))
+
+
+def range_loop_rules(ctx, inc, g, up):
+    keys = g.fact_keys_at(up[0][0])
+    ctx.inst('R6', inc, 'range-length-check', fact_key('len(data) % 5 != 0', False) in keys and fact_key('pk_type == self.RANGE_STREAM_REPORT', True) in keys,
+             'records are decoded only when the payload is a whole number of 5-byte records')
+    ctx.inst('R6', inc, 'range-record', norm(up[0][1].args[1]) == 'raw_data[:5]', 'each record is the next 5 bytes')
+    lp = [l for l in walk_own(inc.node) if isinstance(l, ast.For)]
+    ctx.inst('R6', inc, 'range-count', len(lp) == 1 and norm(lp[0].iter) in ('range(int(len(data) / 5))', 'range(len(data) // 5)'), 'one iteration per record')
+    body = [norm(s) for s in lp[0].body] if lp else []
+    ctx.inst('R6', inc, 'range-advance', body == ["anchor_id, distance = struct.unpack('<Bf', raw_data[:5])", 'decoded_data[anchor_id] = distance', 'raw_data = raw_data[5:]'],
+             'record -> (anchor id, distance), stored by id, then advance 5 bytes; body %s' % body)
+    fresh_dict_rule(ctx, inc, g)
+
+
+def fresh_dict_rule(ctx, inc, g):
+    # the report is decoded into a dictionary of its own: what it lists is exactly what this packet carried (a dictionary kept on the
+    # object still shows the anchors of earlier reports, and every delivered packet shares it)
+    tgtd = [n for n in g.nodes if n.kind == 'stmt' and isinstance(n.ast, ast.Assign) and isinstance(n.ast.targets[0], ast.Subscript) and
+            norm(n.ast.targets[0].slice) == 'anchor_id']
+    okfr = len(tgtd) == 1 and isinstance(tgtd[0].ast.targets[0].value, ast.Name)
+    if okfr:
+        dsd = g.reaching_defs(tgtd[0], tgtd[0].ast.targets[0].value.id)
+        dvd = [g.def_value(d, tgtd[0].ast.targets[0].value.id) for d in dsd]
+        okfr = len(dsd) == 1 and dvd[0] is not None and norm(dvd[0]) in ('{}', 'dict()') and fact_key('pk_type == self.RANGE_STREAM_REPORT', True) in g.fact_keys_at(dsd[0])
+    ctx.inst('R6', inc, 'range-report-in-fresh-dict', okfr, 'distances are stored in a dictionary created for this report ({} in the range branch)')
 
 
 def lh_angle_symbolic(la):
@@ -306,7 +352,37 @@ def lh_angle_symbolic(la):
                 return ast.Name(id=v, ctx=ast.Load())
             return n
     import copy as _copy
+
+    def lst(e):
+        """a list-valued expression as the list of its element texts: a display, a + of lists, a comprehension over a constant slice of the record"""
+        if isinstance(e, ast.List):
+            return [norm(S().visit(_copy.deepcopy(x))) for x in e.elts]
+        if isinstance(e, ast.BinOp) and isinstance(e.op, ast.Add):
+            a, b = lst(e.left), lst(e.right)
+            return a + b if a is not None and b is not None else None
+        if isinstance(e, ast.ListComp) and len(e.generators) == 1 and not e.generators[0].ifs and isinstance(e.generators[0].target, ast.Name):
+            it = e.generators[0].iter
+            if isinstance(it, ast.Subscript) and isinstance(it.value, ast.Name) and env.get(it.value.id) == '<record>' and isinstance(it.slice, ast.Slice) and it.slice.step is None:
+                lo = fold_in(la, it.slice.lower) if it.slice.lower is not None else 0
+                hi = fold_in(la, it.slice.upper) if it.slice.upper is not None else None
+                if isinstance(lo, int) and isinstance(hi, int) and 0 <= lo <= hi <= 64:
+                    out_ = []
+                    for k in range(lo, hi):
+                        saved = env.get(e.generators[0].target.id)
+                        env[e.generators[0].target.id] = 'F%d' % k
+                        out_.append(norm(S().visit(_copy.deepcopy(e.elt))))
+                        if saved is None:
+                            del env[e.generators[0].target.id]
+                        else:
+                            env[e.generators[0].target.id] = saved
+                    return out_
+        return None
     for st in la.node.body:
+        if isinstance(st, ast.Return) and isinstance(st.value, ast.Dict) and not out and all(k is not None for k in st.value.keys):
+            for k_, v_ in zip(st.value.keys, st.value.values):
+                l_ = lst(v_)
+                out[norm(k_)] = l_ if l_ is not None else norm(S().visit(_copy.deepcopy(v_)))
+            continue
         if not isinstance(st, ast.Assign) or len(st.targets) != 1:
             continue
         t, v = st.targets[0], st.value
